@@ -321,6 +321,12 @@ H("udp_decode_recv_meta", ["C19"], "quick", "unix::decode_recv_meta",
   ["reached", "ECN", "GRO stride", "PKTINFO"],
   ["decode_recv", "ControlMetadata::decode", "decode_socket_addr", "cmsg::Iter", "cmsg::decode", "EcnCodepoint::from_bits"],
   "every subset of {IP_TOS u8, UDP_GRO c_int, in_pktinfo}, every value, AF_INET source address", crate="quinn_udp")
+H("udp_recv_ctrl_capacity", ["C19"], "quick", "unix::recv_ctrl_capacity",
+  [("v6", "bool"), ("ts", "bool"), ("secs", "i64"), ("nsecs", "u32"), ("gro", "bool"), ("seg", "u16"), ("tos", "u8"), ("ifindex", "u32"), ("dst4", "u32"), ("port", "u16"), ("src", "u32")], 20,
+  ["IPv6 set", "IPv4 set", "GRO batch", "timestamp"],
+  ["cmsg::LEN (receive control buffer)", "cmsg::Encoder::push (capacity assertion)", "decode_recv", "ControlMetadata::decode"],
+  "every subset of {SCM_TIMESTAMPNS timespec, UDP_GRO c_int} followed by {in_pktinfo, IP_TOS u8} or {in6_pktinfo, IPV6_TCLASS c_int}, every value; WHICH messages the kernel attaches is a model of Linux written in the harness (FFI)",
+  crate="quinn_udp")
 H("udp_effective_segment_size", ["C19"], "quick", "effective_segment_size",
   [("len", "u16"), ("has_seg", "bool"), ("seg", "usize")], 4, ["plain send", "segmented"],
   ["Transmit::effective_segment_size"], "every payload length: u16, every segment size: usize", crate="quinn_udp")
@@ -338,6 +344,9 @@ H("endpoint_reset_token_event_native", ["C08", "C09"], "replay-only", "endpoint:
   [("same_addr", "bool")], 4, [], ["Endpoint::handle_event (ResetToken, Drained)"], "native replay body of E2 query e2_endpoint_reset_token_event")
 H("conn_on_packet_authenticated_native", ["C04"], "replay-only", "connection::on_packet_authenticated_native",
   [("has_pn", "bool")], 4, [], ["Connection::on_packet_authenticated"], "native replay body of E2 query e2_on_packet_authenticated")
+
+H("conn_peer_params_cid_auth_native", ["C14", "C04"], "replay-only", "connection::peer_params_cid_auth_native",
+  [("server", "bool"), ("which", "u8")], 4, [], ["Connection::handle_peer_params"], "native replay body of E2 query e2_peer_params_cid_auth")
 
 # ------------------------------------------------------------------ transport_parameters.rs (C10, C03.e)
 H("tp_roundtrip_ints", ["C10"], "thorough", "transport_parameters::roundtrip_ints", [("v", "[u16; 11]"), ("server", "bool")], 24,
